@@ -172,6 +172,7 @@ class Triaxys(object):
             data=self.spec_list, coords=self.coords, dims=self.dims, name=attrs.SPECNAME
         ).to_dataset()
         set_spec_attributes(self.dset)
+        self.dset = self.dset.sortby(attrs.TIMENAME)
         if not self.is_dir:
             self.dset = self.dset.isel(drop=True, **{attrs.DIRNAME: 0})
             self.dset[attrs.SPECNAME].attrs.update(units="m2 s")
@@ -203,7 +204,7 @@ class Triaxys(object):
     def freqs(self):
         try:
             f0, df, nf = self.header["f0"], self.header["df"], self.header["nf"]
-            return list(np.arange(f0, f0 + df * nf, df))
+            return list(f0 + df * np.arange(nf))
         except Exception as exc:
             raise OSError(f"Not enough info to parse frequencies:\n{exc}")
 
